@@ -16,9 +16,9 @@ BUILD = os.path.join(VERIF, '.build')
 TARGET = os.path.join(BUILD, 'target')
 HARNESS = os.path.join(VERIF, 'harness')
 DRV = os.path.join(VERIF, 'drvmux')          # routes each request to its component's driver executable
-DRV_EXES = ['drv', 'drv_walk', 'drv_print', 'drv_cli', 'drv_boxp', 'drv_stream', 'drv_time']
+DRV_EXES = ['drv', 'drv_walk', 'drv_print', 'drv_cli', 'drv_boxp', 'drv_stream', 'drv_time', 'drv_patsel', 'drv_frender', 'drv_regex']
 # which driver executables a property's check needs (all are built; only these can break it)
-DRV_NEEDED = {'C02': ['drv', 'drv_print'], 'C12': ['drv', 'drv_boxp', 'drv_print'], 'C04': ['drv_time'], 'C05': ['drv_stream'], 'C11': ['drv_time'], 'C13': ['drv_print'], 'C14': ['drv_cli'],
+DRV_NEEDED = {'C02': ['drv', 'drv_print'], 'C12': ['drv', 'drv_boxp', 'drv_print', 'drv_patsel'], 'C04': ['drv_time', 'drv_regex', 'drv_patsel'], 'C08': ['drv', 'drv_frender'], 'C05': ['drv_stream'], 'C11': ['drv_time'], 'C13': ['drv_print'], 'C14': ['drv_cli'],
               'C15': ['drv_walk'], 'C17': ['drv_stream'], 'C19': ['drv_print']}
 S4H = os.path.join(TARGET, 'release', 's4h')
 S4 = os.path.join(TARGET, 'release', 's4')
